@@ -353,6 +353,10 @@ func runC05(c *report.Ctx) {
 	ruleRefusalByKeyMaterialOnly(c)
 	ruleClearAllKeystores(c)
 	ruleCryptoKeySealing(c)
+	ruleUnlockFlagFollowsHash(c)
+	ruleRemovalAnswersOnlyAfterPassphrase(c)
+	ruleValidatedTokensAreDecodedTokens(c) // a revealed / exported backup restores the same wallet only if the stored entropy is that of the sentence as typed
+	ruleSentenceJudgedByWords(c)
 }
 
 func rootBase(fa *ssa.FieldAddr) ssa.Value {
